@@ -52,6 +52,17 @@ func boolAtoms() []gen.Expr {
 	}
 	out = append(out, gen.B("=", gen.F("local-name"), gen.S("a")), gen.B("=", gen.F("local-name"), gen.S("b")),
 		gen.F("true"), gen.F("false"))
+	// both arguments depend on the candidate (nothing may be cached across candidates)
+	dep := []gen.Expr{gen.F("local-name"), gen.F("name"), gen.F("string", relPath(gen.At("a"))), gen.F("string", relPath(gen.Dot())), gen.F("concat", relPath(gen.At("x")), gen.S("")),
+		gen.F("substring", relPath(gen.Dot()), gen.N(1), gen.N(1)), gen.F("local-name", relPath(gen.DotDot())), gen.F("string", relPath(gen.Ch("*")))}
+	for _, p := range []gen.Expr{relPath(gen.Dot()), relPath(gen.At("a")), relPath(gen.At("x")), relPath(gen.Ch("text()")), gen.F("local-name"), gen.F("string", relPath(gen.DotDot()))} {
+		for _, d := range dep {
+			out = append(out, gen.F("contains", p, d), gen.F("starts-with", p, d), gen.B("=", p, d), gen.B("!=", d, p))
+		}
+	}
+	for _, d := range dep {
+		out = append(out, gen.B("=", gen.F("count", relPath(gen.Ch("*"))), gen.F("string-length", d)), gen.B(">", gen.F("count", relPath(gen.At("*"))), gen.F("count", relPath(gen.Ch("*")))))
+	}
 	return out
 }
 
